@@ -708,6 +708,7 @@ def run(chk):   # noqa
     c02_fields.run(chk, prog)
     _pairloop_rule(chk, Program.load("default"))
     _nilfold_rule(chk, prog)
+    _pusharity_rule(chk, prog)
 
 
 def _nilfold_rule(chk, prog, rule="C02-NILFOLD"):
@@ -777,3 +778,43 @@ def _nilfold_rule(chk, prog, rule="C02-NILFOLD"):
                               "been replaced by the operand of (= nil X) / (not= nil X): for the constant false the folded branch differs "
                               "from what the emitted jump-if-nil / jump-if-not-nil does for the same value in a register")
     chk.floor(rule, 2, n)
+
+
+def _pusharity_rule(chk, prog):
+    """janetc_pushslots emits the argument pushes of a call and at the same time counts how many arguments the call has
+    at least (`min_arity`), which janetc_call uses to refuse calls of constant functions at compile time.  Each branch
+    pushes one, two or three plain slots (and possibly a spliced one, which may be empty): the count has to grow by the
+    number of plain slots, or valid calls with an empty splice are rejected / invalid ones accepted."""
+    rule = "C02-PUSHARITY"
+    chk.rule(rule, "in janetc_pushslots every branch adds to the minimum argument count exactly the number of plain slots it pushes")
+    fn = prog.need_func("janetc_pushslots", "compile.c")
+    chk.analysed(fn)
+    PLAIN = {"JOP_PUSH": 1, "JOP_PUSH_2": 2, "JOP_PUSH_3": 3, "JOP_PUSH_ARRAY": 0}
+    n = 0
+    for x in fn.nodes:
+        inc1 = x.k == "un" and x.op in ("post++", "pre++") and is_ref(x.kids[0], "min_arity")
+        if not inc1 and not (x.k == "asg" and x.op == "+=" and is_ref(x.kids[0], "min_arity") and strip_casts(x.kids[1]).k == "int"):
+            continue
+        blk = x.parent
+        while blk is not None and blk.k != "compound":
+            blk = blk.parent
+        if blk is None:
+            continue
+        pushed = 0
+        for c in blk.kids:
+            for y in c.walk():
+                if y.k == "call" and (y.callee or "").startswith("janetc_emit"):
+                    for a in y.args:
+                        a = strip_casts(a)
+                        if a.k == "ref" and a.name in PLAIN:
+                            pushed += PLAIN[a.name]
+        n += 1
+        chk.instance(rule)
+        k = 1 if inc1 else strip_casts(x.kids[1]).v
+        if k == pushed:
+            chk.ok(rule, "janetc_pushslots: a branch pushing %d plain slot(s) adds %d" % (pushed, k))
+        else:
+            chk.violation(rule, "compile.c", "janetc_pushslots", "branch@%s" % x.loc.split(":")[-1], x.loc,
+                          "this branch pushes %d plain slot(s) but adds %d to the call's minimum argument count: (f a b ;rest) with an "
+                          "empty `rest` is then refused at compile time (or a call with too few arguments accepted) for a constant f" % (pushed, k))
+    chk.floor(rule, 4, n)
